@@ -17,10 +17,12 @@ RULE = ('bounded exhaustive enumeration of source texts, each parsed by the real
         'program, unique number literal per statement) and of the shipped include files; (columns) eight statement kinds x '
         'fault tokens x tails with the fault at every column up to 400; (caret) every (line length, column) in 0..400 x '
         '1..len+1 constructed directly; (nesting) parenthesis/unary/call nesting to the depth bound in every statement kind; '
-        '(contin) backslash runs 1..8 with the fault in every piece; (prefix) every prefix of 1..3 comment/blank/statement '
+        '(contin) backslash runs 1..8 with the fault in every piece; (bsonly) backslash-only physical lines before every piece of '
+        'a continued statement and as the last lines of the input; (linechars) FF, VT, FS, GS, RS, NEL, U+2028, U+2029 and a lone CR '
+        'inside a comment, a string literal and as white space, before and on a faulty line; (prefix) every prefix of 1..3 comment/blank/statement '
         'lines x start line {1,7} on base texts of the other families. A case is non-trivial when the text is rejected '
         '(keywords, soup, mutants, prefix), when the line is long enough to be elided (columns, caret), when the depth '
-        'exceeds 1 or the text is faulty (nesting, contin).')
+        'exceeds 1 or the text is faulty (nesting, contin, bsonly, linechars).')
 ASSUMPTIONS = [
     'trusted: mc/ref/blocks.py - the block automaton of appendix A.4 and the independent logical-line joiner (comment lines '
     'skipped - also between continuation pieces -, pieces trimmed and joined by one space); a BLANK line between continuation '
@@ -31,6 +33,8 @@ ASSUMPTIONS = [
     'totality, position sanity and line accounting',
     'line accounting uses the implementation on single lines: a line that parses alone as a simple statement must appear, '
     'in order, in the model of every accepted text that contains it',
+    'the documented line split is LF with an optional CR before it; no other character ends a physical line',
+    'a continuation pending at end of input is always an error (appendix A.4, fix F11), whatever its pieces hold',
     'formatted message: the last two lines of str(error) are the (possibly elided) source line and the caret line',
 ]
 
@@ -183,22 +187,22 @@ def accounting_problem(model, lls):
 
 
 def dangling_problem(text, res, lls):
-    """A text whose last logical line still waits for a continuation must not parse to a model that omits that line."""
+    """A.4: end of input is accepted only if no continuation is pending. A text whose last logical line still waits for its
+    continuation (whatever the pieces hold - also a line that holds only a backslash) must be rejected."""
     if not lls or not lls[-1].pending or res[0] != 'ok':
         return None
     last = lls[-1]
-    if last.text.strip() == '' or last.interrupted:
-        return None
+    if last.text.strip() == '':
+        return (f'BareScriptParserError: the continuation opened at line {last.start} is still pending at end of input', obs(res),
+                'text ending in a pending continuation (backslash-only line) is accepted')
     phys = blocks.physical_lines(text)
     completed = '\n'.join(phys[:last.start - 1] + [last.text])
     kind, val = run(completed)
-    if kind != 'ok':
-        return ('a BareScriptParserError (the pending line does not even parse when completed)', obs(res),
-                'text ending in a continuation was accepted although its last line cannot have been parsed')
-    if flatten(val) != flatten(res[1]):
-        return ('rejection, or the model of the same text with the last line complete', obs(res),
-                'text ending in a continuation was accepted and the pending line is missing from the model')
-    return None
+    if kind == 'ok' and flatten(val) == flatten(res[1]):
+        return (f'BareScriptParserError: the continuation opened at line {last.start} is still pending at end of input', obs(res),
+                'text ending in a pending continuation is accepted (the pending line was treated as complete)')
+    return (f'BareScriptParserError: the continuation opened at line {last.start} is still pending at end of input', obs(res),
+            'text ending in a pending continuation is accepted and the pending line is missing from the model')
 
 
 # ---------------------------------------------------------------------------------------------------------------------
@@ -884,10 +888,7 @@ def check_contin(case, acc):
     if expect == 'dangling':
         if res[0] == 'ok':
             prob = dangling_problem(text, res, lls)
-            if prob is None and any(n not in numbers_in(res[1]) for n in literals):
-                prob = (f'literals {literals} in the model', 'some missing', 'a pending continuation piece was dropped')
-            if prob is not None:
-                acc.violation(detail, prob[0], prob[1], prob[2])
+            acc.violation(detail, prob[0], prob[1], prob[2])
             return ('dangling-accepted',)
         prob = diag_problem(res[1], 1, lls, None, None, acc)
         if prob is not None:
@@ -923,6 +924,242 @@ def fam_contin(arg):
                             acc.nontrivial += 1
         if len(acc.samples) < 2 and run_len == 3:
             acc.sample({'run': run_len, 'fault_piece': pos, 'text': text_contin({'run': run_len, 'pos': pos, 'stmt': 'if', 'ws': 0, 'ind': 1})})
+    return acc.result()
+
+
+# ---------------------------------------------------------------------------------------------------------------------
+# (g) characters that some line splitters treat as line boundaries (the documented split is LF with an optional CR before it)
+
+LINECHARS = ('\x0c', '\x0b', '\x1c', '\x1d', '\x1e', '\x85', '\u2028', '\u2029', '\r')
+LC_CLASSES = ('comment', 'ctrail', 'string', 'space', 'slead', 'strail')
+LC_SPACE = ('space', 'slead', 'strail')    # the character stands where white space may stand
+LC_PLACES = [(pos, cls) for pos in (1, 2, 3) for cls in LC_CLASSES] + [(0, 'string'), (0, 'space')]
+EOLS = ('\n', '\r\n')
+LC_STMT_LINE = 5
+
+
+def build_linechars(case, ch):
+    """Six physical lines: three plain assignments (one of them replaced by the carrier of the character when pos is 1..3),
+    then the statement of the given kind wrapped as in wrap() - it is line 5 and carries the character itself when pos is 0."""
+    pos, cls, kind = case['pos'], case['cls'], case['stmt']
+    lines = ['p1 = 901', 'p2 = 902', 'p3 = 903']
+    if pos:
+        lines[pos - 1] = {'comment': f'  # note{ch}qq = 977', 'ctrail': f'  # note qq = 977{ch}', 'string': f"ss = 'ab{ch}cd = 977'",
+                          'space': f'ww = 5 +{ch}977', 'slead': f'{ch}ww = 5 + 977', 'strail': f'ww = 5 + 977{ch}'}[cls]
+        expr = 'vv(5)'
+    else:
+        expr = f'vv("a{ch}b")' if cls == 'string' else f'vv({ch}5)'
+    if case['faulty']:
+        expr += ' @'
+    stmt = HEADS[kind] + expr + CLOSE[kind]
+    return lines + wrap(kind, stmt), stmt
+
+
+def text_linechars(case):
+    return EOLS[case['eol']].join(build_linechars(case, LINECHARS[case['ch']])[0])
+
+
+def strings_in(model):
+    return [node['string'] for node in walk(model) if isinstance(node.get('string'), str)]
+
+
+def check_linechars(case, acc):
+    ch = LINECHARS[case['ch']]
+    pos, cls, start = case['pos'], case['cls'], case['start']
+    lines, stmt = build_linechars(case, ch)
+    eol = EOLS[case['eol']]
+    text = eol.join(lines)
+    plain = eol.join(build_linechars(case, ' ' if cls in LC_SPACE else 'x')[0])
+    res = run(text, start)
+    ref = run(plain, start)
+    acc.evals += 2
+    detail = dict(case, char=f'U+{ord(ch):04X}', text=text)
+    if res[0] == 'host':
+        acc.violation(detail, 'a model or BareScriptParserError', obs(res), 'another exception escapes parse_script')
+        return ('host',)
+    lls = blocks.logical_lines(text)
+    carrier = pos or LC_STMT_LINE
+    if res[0] == 'err' and cls in LC_SPACE and isinstance(res[1].line_number, int) and res[1].line_number - start + 1 == carrier \
+            and (not case['faulty'] or pos):
+        # the implementation does not take the character for white space: whether it should is not documented
+        acc.unspecified += 1
+        prob = diag_problem(res[1], start, lls, {carrier}, None, acc)
+        if prob is not None:
+            acc.violation(detail, prob[0], prob[1], prob[2])
+        return ('not-space',)
+    if case['faulty']:
+        if ref[0] != 'err':
+            raise AssertionError(f'the faulty text without the character is not rejected: {plain!r}')
+        if res[0] == 'ok':
+            acc.violation(detail, f'BareScriptParserError at line {start + LC_STMT_LINE - 1}', obs(res), 'a faulty line is accepted')
+            return ('accept-invalid',)
+        prob = diag_problem(res[1], start, lls, {LC_STMT_LINE}, fault_range(stmt, stmt.index('@')), acc)
+        if prob is not None:
+            acc.violation(detail, prob[0], prob[1],
+                          prob[2] + ' (a character that is not a documented line break moved or split the reported line)')
+        return ('err', res[1].line_number - start if isinstance(res[1].line_number, int) else None)
+    if ref[0] != 'ok':
+        raise AssertionError(f'the valid text without the character is rejected: {plain!r}')
+    if res[0] != 'ok':
+        acc.violation(detail, 'accepted like the same text with the character replaced', obs(res),
+                      'a valid text is rejected because of a character inside a comment / string literal')
+        return ('reject-valid',)
+    got, want = flatten(res[1]), flatten(ref[1])
+    if len(got) != len(want):
+        acc.violation(detail, f'{len(want)} statements (as with the character replaced by {"a blank" if cls in LC_SPACE else "x"})', f'{len(got)} statements',
+                      'the character changed the number of statements: it was taken for a line break')
+    elif cls in ('comment', 'ctrail') and 977.0 in numbers_in(res[1]):
+        acc.violation(detail, 'the comment produces no statement', 'number 977 in the model', 'the tail of a comment became a statement')
+    elif cls == 'string' and (f'ab{ch}cd = 977' if pos else f'a{ch}b') not in strings_in(res[1]):
+        acc.violation(detail, 'one string literal holding the character', strings_in(res[1]), 'a string literal holding the character did not stay one literal')
+    elif cls in LC_SPACE and got != want:
+        acc.violation(detail, 'the model of the same text with a blank', obs(res), 'white space the implementation accepts changed the model')
+    else:
+        prob = accounting_problem(res[1], lls)
+        if prob is not None:
+            acc.violation(detail, prob[0], prob[1], prob[2])
+    return ('ok', len(got))
+
+
+def fam_linechars(chars):
+    acc = Acc('linechars')
+    seen = Seen(acc)
+    for ci in chars:
+        for pos, cls in LC_PLACES:
+            for kind in STMT_KINDS:
+                for faulty in (False, True):
+                    for eol in range(len(EOLS)):
+                        for start in STARTS:
+                            acc.cases += 1
+                            case = {'ch': ci, 'pos': pos, 'cls': cls, 'stmt': kind, 'faulty': faulty, 'eol': eol, 'start': start}
+                            out = check_linechars(case, acc)
+                            seen.add(out)
+                            if faulty:
+                                acc.nontrivial += 1
+        acc.sample({'char': f'U+{ord(LINECHARS[ci]):04X}', 'text': text_linechars({'ch': ci, 'pos': 2, 'cls': 'comment', 'stmt': 'while', 'faulty': True, 'eol': 0}),
+                    'expected': 'error at line 5, its column on the @'})
+    return acc.result()
+
+
+# ---------------------------------------------------------------------------------------------------------------------
+# (h) physical lines that hold only a backslash
+
+BS_LINES = ('\\', '  \\', '\\  ', '\t\\ ')
+BS_TRAILS = ([], [''], ['# c'], ['', '   # c \\', ''])
+BS_CONTEXTS = {'none': [], 'stmt': ['aa = 801'], 'cont': ['xx = 101 \\'], 'block': ['if cc():', 'vv(1)', 'endif'], 'open': ['if cc():', 'vv(1)']}
+
+
+def build_bsonly(case):
+    """-> (physical lines, expectation, line to blame (1-based) or None, literals that must be in the model)"""
+    empty = [BS_LINES[case['bs']]] * case['n']
+    if case['part'] == 'eof':
+        ctx = BS_CONTEXTS[case['ctx']]
+        return ctx + empty + BS_TRAILS[case['trail']], 'eof', None, []
+    run_len, at, pos, kind = case['run'], case['at'], case['pos'], case['stmt']
+    terms = [str(101 + j) for j in range(run_len + 1)]
+    if 0 <= pos <= run_len:
+        terms[pos] = '@'
+    lines = [wrap(kind, '')[0]]
+    for j, term in enumerate(terms):
+        if j == at:
+            lines.extend(empty)
+        piece = (HEADS[kind] + term) if j == 0 else ('    + ' + term)
+        lines.append(piece + (CLOSE[kind] if j == run_len else ' \\'))
+    literals = [float(t) for t in terms if t != '@']
+    if pos == run_len + 1:
+        lines.append('vv(802 @)')
+        lines.append(wrap(kind, '')[2])
+        return lines, 'after', len(lines) - 1, literals
+    lines.append('vv(802)')
+    lines.append(wrap(kind, '')[2])
+    if pos == -1:
+        return lines, 'valid', None, literals + [802.0]
+    return lines, 'fault', 2, literals
+
+
+def text_bsonly(case):
+    return '\n'.join(build_bsonly(case)[0])
+
+
+def check_bsonly(case, acc):
+    lines, expect, blame, literals = build_bsonly(case)
+    text = '\n'.join(lines)
+    res = run(text)
+    acc.evals += 1
+    detail = dict(case, text=text)
+    if res[0] == 'host':
+        acc.violation(detail, 'a model or BareScriptParserError', obs(res), 'another exception escapes parse_script')
+        return ('host',)
+    lls = blocks.logical_lines(text)
+    if expect == 'eof':
+        pending = lls[-1]
+        if not pending.pending:
+            raise AssertionError(f'reference joiner: no pending continuation in {text!r}')
+        if res[0] == 'ok':
+            prob = dangling_problem(text, res, lls)
+            acc.violation(detail, prob[0], prob[1], prob[2])
+            return ('eof-accepted',)
+        prob = diag_problem(res[1], 1, lls, {pending.start} | ({1} if case['ctx'] == 'open' else set()), None, acc)
+        if prob is not None:
+            acc.violation(detail, prob[0], prob[1], prob[2])
+        return ('eof-rejected', res[1].line_number - pending.start if isinstance(res[1].line_number, int) else None)
+    if expect == 'valid':
+        if res[0] != 'ok':
+            acc.violation(detail, 'the valid continued statement parses', obs(res), 'a valid statement with a backslash-only line is rejected')
+            return ('reject-valid',)
+        have = numbers_in(res[1])
+        missing = [n for n in literals if n not in have]
+        prob = accounting_problem(res[1], lls)
+        if missing:
+            acc.violation(detail, f'literals {literals} in the model', f'missing {missing}', 'a continuation piece was dropped')
+        elif prob is not None:
+            acc.violation(detail, prob[0], prob[1], prob[2])
+        return ('ok',)
+    if res[0] == 'ok':
+        acc.violation(detail, f'BareScriptParserError at line {blame}', obs(res), 'a faulty line is accepted')
+        return ('accept-invalid',)
+    target = next(ll for ll in lls if ll.start == blame)
+    prob = diag_problem(res[1], 1, lls, {blame}, fault_range(target.text, target.text.index('@')), acc)
+    if prob is not None:
+        acc.violation(detail, prob[0], prob[1], prob[2])
+    return ('err', expect, res[1].line_number, res[1].column_number - target.text.index('@'))
+
+
+def bsonly_cases(maxrun):
+    return [(r, at) for r in range(0, maxrun + 1) for at in range(0, r + 1)]
+
+
+def bsonly_expected(maxrun):
+    return sum((r + 1) * (r + 3) for r in range(0, maxrun + 1)) * 2 * len(BS_LINES) * len(STMT_KINDS) + len(BS_CONTEXTS) * 2 * len(BS_LINES) * len(BS_TRAILS)
+
+
+def fam_bsonly(arg):
+    part, items = arg
+    acc = Acc('bsonly')
+    seen = Seen(acc)
+    if part == 'eof':
+        for ctx in BS_CONTEXTS:
+            for n in (1, 2):
+                for b in range(len(BS_LINES)):
+                    for trail in range(len(BS_TRAILS)):
+                        acc.cases += 1
+                        acc.nontrivial += 1
+                        seen.add(check_bsonly({'part': 'eof', 'ctx': ctx, 'n': n, 'bs': b, 'trail': trail}, acc))
+        acc.sample({'text': text_bsonly({'part': 'eof', 'ctx': 'block', 'n': 1, 'bs': 1, 'trail': 3}), 'expected': 'rejected: continuation pending at end of input'})
+        return acc.result()
+    for run_len, at in items:
+        for n in (1, 2):
+            for b in range(len(BS_LINES)):
+                for kind in STMT_KINDS:
+                    for pos in range(-1, run_len + 2):
+                        acc.cases += 1
+                        case = {'part': 'stmt', 'run': run_len, 'at': at, 'n': n, 'bs': b, 'stmt': kind, 'pos': pos}
+                        seen.add(check_bsonly(case, acc))
+                        if pos != -1:
+                            acc.nontrivial += 1
+        if len(acc.samples) < 2:
+            acc.sample({'run': run_len, 'backslash_only_before_piece': at,
+                        'text': text_bsonly({'part': 'stmt', 'run': run_len, 'at': at, 'n': 1, 'bs': 0, 'stmt': 'if', 'pos': run_len})})
     return acc.result()
 
 
@@ -1029,6 +1266,7 @@ def families(tier):
     soup_len = 4 if quick else 5
     depth = 3 if quick else 4
     nest = 50 if quick else 100
+    bs_run = 3 if quick else 6
     ncorpus = len(gen.corpus(depth))
     corpus_expected = sum(count_mutations(lines) for _, lines in gen.corpus(depth))
     ship = gen.shipped()
@@ -1064,6 +1302,15 @@ def families(tier):
                f'backslash runs 1..{MAXRUN} x fault in no/each piece/the next line/dangling x {len(STMT_KINDS)} statement kinds x '
                f'{len(CONT_WS)} backslash spacings x {len(CONT_IND)} indents x with/without a comment line between the pieces',
                expected=sum(r + 4 for r in range(1, MAXRUN + 1)) * len(STMT_KINDS) * len(CONT_WS) * len(CONT_IND) * 2),
+        Family('linechars', fam_linechars, [[i] for i in range(len(LINECHARS))],
+               f'{len(LINECHARS)} characters (FF, VT, FS, GS, RS, NEL, LS, PS, lone CR) x {len(LC_PLACES)} placements (inside / at the end of a comment, in a string '
+               f'literal, as inner / leading / trailing white space of a statement on line 1..3; in a string / as white space on the statement line) x {len(STMT_KINDS)} statement kinds x '
+               f'valid/faulty statement on line 5 x LF/CRLF line ends x start lines {list(STARTS)}',
+               expected=len(LINECHARS) * len(LC_PLACES) * len(STMT_KINDS) * 2 * len(EOLS) * len(STARTS)),
+        Family('bsonly', fam_bsonly, [('stmt', [c]) for c in bsonly_cases(bs_run)] + [('eof', [])],
+               f'1..2 backslash-only lines (4 spacings) before every piece of a statement continued over 1..{bs_run + 1} pieces x '
+               f'{len(STMT_KINDS)} kinds x fault in no/each piece/the next line; and as the last lines of the input after '
+               f'{len(BS_CONTEXTS)} contexts x {len(BS_TRAILS)} blank/comment trailers', expected=bsonly_expected(bs_run)),
         Family('prefix', fam_prefix, [(tier, cuts[i], cuts[i + 1]) for i in range(64) if cuts[i + 1] > cuts[i]],
                f'{nbases} base texts (keyword sequences <= {3 if quick else 4} lines, soup lines <= {2 if quick else 3} tokens, all mutants of '
                f'{4 if quick else 16} corpus programs, fault columns up to {140 if quick else 200}) x {len(PREFIXES)} prefixes of 1..3 lines '
@@ -1072,13 +1319,13 @@ def families(tier):
 
 
 _CHECKS = {'keywords': check_keywords, 'soup': check_soup, 'mutants': check_mutants, 'columns': check_columns, 'caret': check_caret,
-           'nesting': check_nesting, 'contin': check_contin, 'prefix': check_prefix}
+           'nesting': check_nesting, 'contin': check_contin, 'prefix': check_prefix, 'linechars': check_linechars, 'bsonly': check_bsonly}
 
 
 def replay(family, case):
     acc = Acc(family)
     case = {k: v for k, v in case.items() if k in ('idx', 'tok', 'src', 'depth', 'prog', 'mut', 'kind', 'fault', 'tail', 'f', 'len', 'col',
-                                                    'shape', 'stmt', 'variant', 'run', 'pos', 'ws', 'ind', 'cm', 'base', 'prefix', 'start')}
+                                                    'shape', 'stmt', 'variant', 'run', 'pos', 'ws', 'ind', 'cm', 'base', 'ch', 'cls', 'faulty', 'eol', 'part', 'at', 'n', 'bs', 'ctx', 'trail', 'prefix', 'start')}
     if family == 'prefix':
         check_prefix(case, acc)
     else:
